@@ -1,9 +1,60 @@
 import PyamgV.Driver.Util
-/-! Driver ops for property C13 (line protocol). Op names are prefixed `c13_`. -/
+import PyamgV.Model.C13Wrap
+/-! Driver ops for property C13 (line protocol). Op names are prefixed `c13_`.
+
+Kernel level (arrays as handed to the kernel): `rs`, `rs2`, `cljp`, `mis_par`, `p_mis_par` live in
+`Driver/Graph.lean`; here: `c13_kcljp_rat` (the CLJP kernel model over exact rationals, the weight
+type for which the weight laws are proved).
+
+Wrapper level (arrays of the caller's matrix; the model does `remove_diagonal`, the transpose, the
+symmetrisation, the kernel and `_set_dirichlet`): `c13_prep`, `c13_rs`, `c13_pmis`, `c13_cljp`,
+`c13_cljp_rat`. -/
 namespace PyamgV.Drv.C13
-open PyamgV PyamgV.Drv
+open PyamgV PyamgV.Drv PyamgV.C13
+
+def mkS (n ap aj : String) : Pat := ⟨nat n, parseNats ap, parseNats aj⟩
+
+def showCsr (S : RS.Csr) : String := showNats S.ap ++ ";" ++ showNats S.aj
+
+def guarded (S : Pat) (k : Unit → String) : Option String :=
+  some (if S.valid then k () else "invalid-input")
+
+def showRun (r : Array Int × Bool) : String := if r.2 then showInts r.1 else "fuel-exhausted"
 
 def handle : List String → Option String
+  | ["c13_prep", n, ap, aj] =>
+    let S := mkS n ap aj
+    guarded S fun _ => showCsr (prepS S) ++ ";" ++ showCsr (prepT S) ++ ";" ++ showCsr (prepG S)
+  | ["c13_rs", n, ap, aj, second] =>
+    let S := mkS n ap aj
+    guarded S fun _ => showInts (rsSplit S (second == "1"))
+  | ["c13_pmis", n, ap, aj, w, dirichlet] =>
+    let S := mkS n ap aj
+    let wa := parseRats w
+    guarded S fun _ =>
+      if wa.size != S.n then "invalid-input" else
+      showInts (pmisSplitK S wa (dirichlet == "1")) ++ ";" ++
+        showInts (pmisSplit S (fun i => wa.getD i 0) (dirichlet == "1"))
+  | ["c13_cljp", n, ap, aj, color, w] =>
+    let S := mkS n ap aj
+    guarded S fun _ =>
+      let w0 : Array Float :=
+        if color == "1" then colorWeights Float.ofInt (· / ·) S else parseFloats w
+      if w0.size != S.n then "invalid-input"
+      else if !(w0.all (fun v => 0.0 ≤ v)) then "negative-weight"   -- hypothesis `h0` of `cljp_spec`
+      else showRun (cljpSplit KCljp.floatOps S w0)
+  | ["c13_cljp_rat", n, ap, aj, color, w] =>
+    let S := mkS n ap aj
+    guarded S fun _ =>
+      let w0 : Array Rat :=
+        if color == "1" then colorWeights (fun (z : Int) => (z : Rat)) (· / ·) S else parseRats w
+      if w0.size != S.n then "invalid-input"
+      else if !(w0.all (fun v => decide (0 ≤ v))) then "negative-weight"
+      else showRun (cljpSplit ratOps S w0)
+  | ["c13_kcljp_rat", n, sp, sj, tp, tj, w] =>
+    let S : KCljp.Csr := ⟨nat n, parseNats sp, parseNats sj⟩
+    let T : KCljp.Csr := ⟨nat n, parseNats tp, parseNats tj⟩
+    some <| showRun (KCljp.run ratOps S T (parseRats w) (S.n + 1))
   | _ => none
 
 end PyamgV.Drv.C13
